@@ -140,6 +140,11 @@ def replay_one(scn, rec, opts):
             except RecursionError as e:
                 viol = ("exception", "RecursionError")
             except Exception as e:
+                if op["op"] in ("load", "loadfail") and type(e).__name__ == "CompilerLimitError":
+                    # the compiler itself reports that a clause is too large for Python: allowed
+                    res["status"] = "truncated"
+                    res["why"] = "clause-too-large"
+                    break
                 phase = "compile" if op["op"] in ("load", "loadfail") else "run"
                 tb = traceback.extract_tb(e.__traceback__)
                 where = ""
@@ -155,13 +160,16 @@ def replay_one(scn, rec, opts):
                     viol = ("exception", "run:" + str(obs.get("exc")))
                 elif norm(_strip(obs)) != norm(_strip(exp)):
                     viol = ("answers", "observation differs")
-                elif opts.get("c15") and obs.get("k") == "solve" and _gv_bad(obs.get("gvs"), exp.get("answers")):
+                elif opts.get("c15", True) and obs.get("k") == "answer" and _gv_bad([obs.get("gv")], [exp.get("ans")]):
+                    viol = ("get_value", "get_value at an answer is not the fully dereferenced term")
+                    obs, exp = obs.get("gv"), exp.get("ans")
+                elif opts.get("c15", True) and obs.get("k") == "solve" and _gv_bad(obs.get("gvs"), exp.get("answers")):
                     viol = ("get_value", "get_value at an answer is not the fully dereferenced term")
                     obs, exp = obs.get("gvs"), exp.get("answers")
-                elif opts.get("c15") and obs.get("k") == "solve" and norm(_pyfilter(obs.get("pys"), exp.get("pys"))) != norm(exp.get("pys")):
+                elif opts.get("c15", True) and obs.get("k") == "solve" and exp.get("pys") and norm(_pyfilter(obs.get("pys"), exp.get("pys"))) != norm(exp.get("pys")):
                     viol = ("to_python", "to_python at an answer differs from the specified image")
                     obs, exp = obs.get("pys"), exp.get("pys")
-                elif opts.get("c15") and obs.get("stale"):
+                elif opts.get("c15", True) and obs.get("stale"):
                     viol = ("stale", "a value saved at an answer denotes a different term after the query ended")
                     obs, exp = obs.get("stale"), []
                 else:
